@@ -1,0 +1,14 @@
+//go:build verif
+
+package tasklane
+
+// VerifHook is a verification-only instrumentation point (build tag "verif").
+// When set (before New is called), it is invoked by the queue and worker goroutines
+// right after each protocol step named by ev; it may log, delay or block.
+var VerifHook func(tl *TaskLane, ev string, lane int, task Task)
+
+func vhook(tl *TaskLane, ev string, lane int, task Task) {
+	if h := VerifHook; h != nil {
+		h(tl, ev, lane, task)
+	}
+}
